@@ -301,6 +301,7 @@ func runC09(r *core.Run) int {
 		var pc *patCase
 		if i%4 == 3 {
 			pc = makePattern(i, rng, [3]int{1, 0, 2}, 8)
+			noteCtx(l, pc)
 		} else {
 			opts := 0
 			for _, o := range []regexp2.RegexOptions{regexp2.IgnoreCase, regexp2.Multiline, regexp2.Singleline, regexp2.ExplicitCapture, regexp2.RE2} {
